@@ -651,6 +651,7 @@ def correspondence(ctx):
         elif model_cc is not None and model_cc != r["cache_class"]:
             ctx.mismatch("gettz.resolve(cache class)", resolve_case(r), r["cache_class"], model_cc)
     ctx.traces += len(rr)
+    from props import gzlib; gzlib.validate(ctx, rr, lambda x: canon_hex(x, t))     # the cascade re-translated from the source
     # ---- zone equality table vs the model ----
     reqs, exp, desc = [], [], []
     for env in TZENVS:
